@@ -310,8 +310,24 @@ def judge(model, m, call, r, numeric, bump):
             bad("numeric-enum-marker-missing", f"system params {sys_pairs}")
     elif sys_pairs:
         bad("unexpected-system-parameter", f"{sys_pairs}")
+    DEFAULT_LITERALS = ("", "0", "0.0", "false")
+    req_top = {f.name: f for f in refs.required_fields(bm.DESCRIPTOR)}
+    prim_path_top = {v.split(".")[0] for v, _ in refs.path_vars(bindings[0][1])}
+    prim_body = bindings[0][2]
+
+    def in_query_under_primary(name):
+        return name not in prim_path_top and prim_body != "*" and name != prim_body
+
     if body == "*" and pairs:
-        bad("query-with-star-body", f"{pairs[:5]}")
+        # known mechanism (C04-required-default-additional-binding): the table of REQUIRED fields to re-send with their default is
+        # built for the primary binding; it is applied unchanged when an additional binding with body "*" is selected
+        only_table = idx > 0 and all(
+            (_query_leaf(bm.DESCRIPTOR, k) is not None and "." not in k and _query_leaf(bm.DESCRIPTOR, k).name in req_top
+             and x in DEFAULT_LITERALS + ("b''",)
+             and in_query_under_primary(_query_leaf(bm.DESCRIPTOR, k).name)) for k, x in pairs)
+        bad("query-with-star-body", f"{pairs[:5]}", only_required_defaults_of_primary_binding=bool(only_table))
+        if only_table:
+            pairs = []          # judge the rest of the request without the re-sent defaults
     # a default-valued REQUIRED bytes field is re-sent as the Python literal b'' (known finding,
     # classified by mechanism); judge the rest of the request with the literal removed
     fixed_pairs = []
@@ -349,7 +365,9 @@ def judge(model, m, call, r, numeric, bump):
             bump("required_default_checked")
             keys = {k.split(".")[0] for k, _ in pairs}
             if fd.name not in keys and fd.json_name not in keys:
-                bad("required-field-missing-from-query", f"{fd.name} (value {getattr(sent, fd.name)!r})", default=not bool(getattr(sent, fd.name)))
+                bad("required-field-missing-from-query", f"{fd.name} (value {getattr(sent, fd.name)!r})", default=not bool(getattr(sent, fd.name)),
+                    # same mechanism: under the primary binding the field is covered by path or body, so the table lacks it
+                    not_in_table_of_primary_binding=bool(idx > 0 and not getattr(sent, fd.name) and not in_query_under_primary(fd.name)))
     # no duplication: a query key naming a path variable of the chosen binding (whatever its value)
     pv_names = set(pv)
     for k, x in pairs:
